@@ -22,14 +22,15 @@ VALUE = {"string": "x", "uint256": 1, "address": "0x" + "11" * 20, "bytes32": "0
          "address[1]": ["0x" + "11" * 20], "uint256[]": [1, 2], "bytes32[]": [], "String": {"s": "x"}}
 
 
-def doc_of(members, with_domain_type=True, empty_ok=True):
+def doc_of(members, with_domain_type=True, empty_ok=True, primary="Mail"):
     types = {"Mail": [{"name": "contents", "type": "string"}], "String": [{"name": "s", "type": "string"}]}
     if with_domain_type:
         types["EIP712Domain"] = [{"name": n, "type": t} for n, t in members]
     domain = {}
     for n, t in members:
         domain[n] = VALUE.get(t, "x")
-    return json.dumps({"types": types, "primaryType": "Mail", "domain": domain, "message": {"contents": "hi"}})
+    # primary == "EIP712Domain": the document signs the domain itself (message equal to the domain)
+    return json.dumps({"types": types, "primaryType": primary, "domain": domain, "message": {"contents": "hi"} if primary == "Mail" else domain})
 
 
 def spec_ok(members):
@@ -89,14 +90,16 @@ def run(ctx):
         rest = [c for c in cases if not c[1].startswith("ordering")]
         rng.shuffle(rest)
         cases = keep + rest[:1400]
-    docs = [doc_of(ms) for ms, _ in cases]
+    # one case in four signs the domain itself (primaryType EIP712Domain, message = domain): the domain check is the same
+    cases = [(ms, cls, "EIP712Domain" if (i % 4 == 3 and len(set(n for n, _ in ms)) == len(ms)) else "Mail") for i, (ms, cls) in enumerate(cases)]
+    docs = [doc_of(ms, primary=pr) for ms, _, pr in cases]
     impl = ctx.harness([("typeddata", d) for d in docs])
-    mod = ctx.model(["c20_verify %s" % coq_list(["(%s, %s)" % (tx(n), tx(t)) for n, t in ms]) for ms, _ in cases], label="C20")
+    mod = ctx.model(["c20_verify %s" % coq_list(["(%s, %s)" % (tx(n), tx(t)) for n, t in ms]) for ms, _, _ in cases], label="C20")
     accepted = 0
-    for (ms, cls), d, r, m in zip(cases, docs, impl, mod):
-        case = dict(op="TypedData (domain type)", members=["%s %s" % (t, n) for n, t in ms], cls=cls)
-        ctx.count(cls)
-        ctx.distinct(tuple(ms))
+    for (ms, cls, pr), d, r, m in zip(cases, docs, impl, mod):
+        case = dict(op="TypedData (domain type)", members=["%s %s" % (t, n) for n, t in ms], cls=cls, primary_type=pr)
+        ctx.count(cls + ("/domain-as-primary" if pr != "Mail" else ""))
+        ctx.distinct((tuple(ms), pr))
         # the model decides the domain check; the document is valid otherwise, so outcomes must agree
         if m is not None:
             if r.tag in ("panic", "abort", "timeout"):
@@ -107,7 +110,7 @@ def run(ctx):
         if (r.tag == "ok") != want:
             ctx.violation("domain-accepted-iff-well-formed", case, "accepted" if want else "refused", dict(outcome=r.tag, message=r.msg[:200]))
         accepted += r.tag == "ok"
-    n_ord = sum(1 for (ms, cls), r in zip(cases, impl) if cls.startswith("ordering") and r.tag == "ok")
+    n_ord = sum(1 for (ms, cls, _), r in zip(cases, impl) if cls.startswith("ordering") and r.tag == "ok")
     if n_ord != 31:
         ctx.violation("exactly-31", dict(op="326 orderings"), 31, n_ord)
     ctx.exhaustive["all 326 duplicate-free orderings of subsets of the five standard fields"] = True
@@ -132,16 +135,16 @@ def run(ctx):
     badsets = [[STD[1], STD[0]], [STD[0], STD[0]], [("foo", "string")], [("chainId", "uint64")], [], [STD[0], STD[2], STD[2]], [STD[4], STD[3]]]
     phrase = "test test test test test test test test test test test junk"
     cr = []
-    for ms in badsets:
-        d = doc_of(ms).encode()
+    for ms, pr in [(ms, "Mail") for ms in badsets] + [(ms, "EIP712Domain") for ms in badsets if len(set(ms)) == len(ms)]:
+        d = doc_of(ms, primary=pr).encode()
         for args in (["hash", "typeddata", "-"], ["hash", "typeddata", "--message-hash", "-"], ["hash", "typeddata", "-m", "-"], ["sign", "--mnemonic", phrase, "typeddata", "-"]):
-            cr.append(dict(args=args, stdin=d, ms=ms))
+            cr.append(dict(args=args, stdin=d, ms=ms, pr=pr))
     d = doc_of([], with_domain_type=False).encode()
     for args in (["hash", "typeddata", "-"], ["hash", "typeddata", "-m", "-"], ["sign", "--mnemonic", phrase, "typeddata", "-"]):
         cr.append(dict(args=args, stdin=d, ms=None))
     for rn, r in zip(cr, ctx.cli(cr)):
         ctx.count("cli/malformed-domain")
-        ctx.distinct(("clidom", tuple(rn["args"]), str(rn["ms"])))
+        ctx.distinct(("clidom", tuple(rn["args"]), str(rn["ms"]), rn.get("pr")))
         if r.cls != "error" or r.stdout != b"":
             ctx.violation("cli-refuses-bad-domain", dict(op="hdwallet " + " ".join(a for a in rn["args"] if a != phrase), domain_type=rn["ms"]), "error, nothing hashed or signed", str(r)[:300])
     # ---------------- member type grammar ----------------
